@@ -175,7 +175,7 @@ func (rn *runner) blockCase(dt time.Duration, extra [][]byte, tag string) blockR
 	info := map[string]any{"kind": "block", "tag": tag, "height": height, "time": now.Format(time.RFC3339Nano), "dt_ns": int64(dt),
 		"txs": kinds, "tx_results": res.Txs, "extra_entries": len(extra), "result": class, "err": cut(res.Err, 300), "wall_ms": res.Wall.Milliseconds(),
 		"da_items": da.nItems, "da_due": da.due, "da_near": da.near, "gauges": li.nGauges, "zero_liq_gauge_pools": li.zeroLiq,
-		"mint_fires": mint.fires, "sc_due": sc.due, "sc_same_second_later": sc.sameSec, "sc_released": sc.released.String(), "sc_owed": sc.owed.String(),
+		"mint_fires": mint.fires, "sc_due": sc.due, "sc_same_second_later": sc.sameSec, "sc_released": sc.released.String(), "sc_owed": sc.owed.String(), "sc_blocked_recipients": sc.blocked,
 		"fee_collector_bond": liBal.String(), "seed": rn.seed}
 	rn.add(fmt.Sprintf("(CBlock %s %s)", bin, obs), info)
 	st := rn.st
@@ -552,8 +552,15 @@ func (rn *runner) opShareClass() {
 	switch r.Intn(6) {
 	case 0, 1:
 		w.queue("sc-delegate", a, 2_000_000, w.msgNvDelegate(a, v, int64(1+r.Intn(2_000_000))))
-	case 2, 3, 4:
+	case 2, 3:
 		w.queue("sc-undelegate", a, 2_000_000, w.msgNvUndelegate(a, v, int64(1+r.Intn(300_000))))
+	case 4:
+		// explicit recipient: another account, sometimes a blocked address (module accounts)
+		rcp := w.h.Accts[r.Intn(6)].Addr.String()
+		if r.Chance(1, 3) {
+			rcp = emit.Pick(r, w.feeColl, w.mod, w.daMod).String()
+		}
+		w.queue("sc-undelegate", a, 2_000_000, w.msgNvUndelegateTo(a, v, int64(1+r.Intn(300_000)), rcp))
 	default:
 		w.queue("sc-claim", a, 2_000_000, &sctypes.MsgClaimRewards{Sender: w.h.Accts[a].Addr.String(), ValidatorAddress: w.vals[v].Oper})
 	}
